@@ -512,6 +512,28 @@ class Unify:
         gl = [atom("goal", "g%d" % i, a) for i, a in enumerate(gs)]
         return lines, (gl + fl if goal_first else fl + gl), fs, gs
 
+    def render_produced(self, d, producer_first, depth, in_disjunct):
+        """the facts do not stand at top level: fact i is created by the rule of a goal  h<i> = new H<i>()  (depth 2: by the
+        rule of a sub-goal of that rule; in_disjunct: inside both disjuncts of a disjunction of that rule).  Semantically
+        the same problem (every H<i> can always be achieved), so the same reference encoding applies."""
+        lines, atoms, fs, gs = self.render(d, force_false=True)
+        nf = len(fs)
+        fact_lines, goal_lines = atoms[:nf], atoms[nf:]
+        preds, hgoals = [], []
+        for i, fl in enumerate(fact_lines):
+            body = fl
+            if in_disjunct:
+                body = "{ %s } or { %s }" % (fl, fl.replace("fact f%d" % i, "fact fz%d" % i))
+            if depth == 2:
+                preds.append("predicate H%db() { %s }" % (i, body))
+                preds.append("predicate H%d() { goal k = new H%db(); }" % (i, i))
+            else:
+                preds.append("predicate H%d() { %s }" % (i, body))
+            hgoals.append("goal h%d = new H%d();" % (i, i))
+        k = next(j for j, l in enumerate(lines) if l.startswith("predicate P("))
+        lines = lines[:k + 1] + preds + lines[k + 1:]
+        return lines, (hgoals + goal_lines if producer_first else goal_lines + hgoals), fs, gs
+
     def reference(self, d, fs, gs):
         """(decls, implicit statements) of the reference problem for facts fs and goals gs"""
         kinds = d['kinds']
